@@ -330,6 +330,15 @@ package vnet
 // ---- time plus the delay; Run forwards the items of the queue in queue order, each exactly once, and only after a timer
 // ---- tick later than the item's deadline (fwdTick: the tick that released the k-th forwarded chunk).
 //@ ghost global fwdTick map[mathint]mathint
+// construction order of the token bucket: the options are applied before the queue is sized from them
+//@ func (t *TokenBucketFilter) Set(opts ...TBFOption) (previous TBFOption)
+//@   requires forall i mathint :: {opts[i]} 0 <= i && i < len(opts) ==> opts[i] != nil
+//@   modifies t.queueSize
+//@   loop 1 invariant [scan] 0 <= rangeindex + 1 && rangeindex < len(opts)
+//@ func NewTokenBucketFilter(n NIC, opts ...TBFOption) (t *TokenBucketFilter, err error)
+//@   requires n != nil && (forall i mathint :: {opts[i]} 0 <= i && i < len(opts) ==> opts[i] != nil)
+//@   ghost before newChunkQueue#1: assert [configured] calls(Set) == 1
+//@   ensures [made] err == nil ==> t != nil && t.queue != nil
 //@ func NewDelayFilter(nic NIC, delay time.Duration) (f *DelayFilter, err error)
 //@   ensures [made] err == nil && f != nil && fresh(f) && f.delay == delay && f.NIC == nic && f.push != nil && f.queue != nil && fresh(f.queue)
 //@ func newChunkQueue(maxSize int, maxBytes int) (q *chunkQueue)
@@ -859,7 +868,7 @@ package vnet
 // permissions consulted by the inbound filter are recorded by translateOutbound
 //@ property C03: networkAddressTranslator.translateInbound, networkAddressTranslator.removeMapping, networkAddressTranslator.translateOutbound, networkAddressTranslator.findOutboundMapping, Router.onInboundChunk, newNAT, Router.setRouter
 //@ property C14: chunkQueue.push, chunkQueue.pop, chunkQueue.peek, DelayFilter.onInboundChunk, DelayFilter.Run, Router.push, Router.processChunks, Router.AddChunkFilter, chunkIP.getTimestamp, chunkIP.setTimestamp, NewDelayFilter, newChunkQueue
-//@ property C15: TokenBucketFilter.refillTokens, TokenBucketFilter.drainQueue, TokenBucketFilter.run, TokenBucketFilter.onInboundChunk, chunkQueue.push, chunkQueue.pop, chunkQueue.peek, newChunkQueue
+//@ property C15: TokenBucketFilter.refillTokens, TokenBucketFilter.drainQueue, TokenBucketFilter.run, TokenBucketFilter.onInboundChunk, chunkQueue.push, chunkQueue.pop, chunkQueue.peek, newChunkQueue, NewTokenBucketFilter, TokenBucketFilter.Set
 // (UDPConn.Close belongs to C01 as well: a refused second Close must not unbind the address a successor socket holds)
 // every function under contract in the files C01 is anchored in that can lose, duplicate or misdeliver a datagram: socket registration, routing table, NAT
 //@ property C01: chunkUDP.SourceAddr, chunkUDP.DestinationAddr, chunkUDP.UserData, chunkUDP.Network, chunkUDP.Clone, chunkUDP.setSourceAddr, chunkUDP.setDestinationAddr, Router.processChunks, Router.push, Router.onInboundChunk, Net.write, Net.onInboundChunk, UDPConn.WriteTo, UDPConn.ReadFrom, UDPConn.onInboundChunk, chunkQueue.push, chunkQueue.pop, chunkQueue.peek, udpConnMap.find, UDPConn.Close, udpConnMap.insert, udpConnMap.delete, Net.onClosed, Net._dialUDP, newUDPConn, Router.addNIC, networkAddressTranslator.translateOutbound, networkAddressTranslator.findOutboundMapping, networkAddressTranslator.allocUDPPort, networkAddressTranslator.removeMapping, networkAddressTranslator.translateInbound, newChunkUDP, chunkIP.getSourceIP, chunkIP.getDestinationIP, chunkIP.getTimestamp, chunkIP.setTimestamp, chunkIP.Tag, newChunkQueue
